@@ -119,6 +119,7 @@ def SState.emit (ss : SState) (e : TEv) : SState := { ss with trace := e :: ss.t
 
 def specPoll (rc : RunCfg) (ss : SState) : Bool × SState :=
   let c := ss.vis.cancelled || (match rc.cancelAt with | some k => decide (k ≤ ss.polls) | none => false)
+    || (match rc.cancelAtEvent with | some k => decide (k < ss.trace.length) | none => false)
   (c, { ss with polls := ss.polls + (if c then 2 else 1) })
 
 def visRetracted (v : Vis) (e : RuleEntry) : Bool := v.retracted.contains e.rule.name
